@@ -133,6 +133,7 @@ func (c Cache) Imports() []string {
 	for k := range unique {
 		imports = append(imports, fmt.Sprintf("%q", k))
 	}
+	sort.Strings(imports) // do not depend on the map iteration order
 	return imports
 }
 
